@@ -32,6 +32,7 @@ impl Family for C17Family {
             real: &["passkey_types::u2f::{Request::try_from, RegisterResponse::encode, AuthenticationResponse::encode, Version::encode}", "U2fApi::{register,authenticate}", "Passkey::wrap_u2f_registration_request", "MemoryStore"],
             stubs: &["executor", "SimStore seam", "U2F host and token glue", "seeded RNG behind the hook"],
             crash_isolated: false,
+            fresh_thread: true,
         }
     }
 
@@ -74,6 +75,9 @@ impl Family for C17Family {
                     // now and then the same key handle is registered again for the same application
                     if let (Some((h, a)), true) = (&last_reg, r.chance(1, 6)) {
                         handle = h.clone();
+                        application = a.clone();
+                    } else if let (Some((_, a)), true) = (&last_reg, r.chance(1, 5)) {
+                        // another key handle for an application that already has one
                         application = a.clone();
                     }
                     last_reg = Some((handle.clone(), application.clone()));
